@@ -167,7 +167,8 @@ func BreakJSONRule(r *R, rule, pkgPrefix, tag string) *Broken {
 			b.Variant = "colliding field in another oneof"
 			bad.Oneofs = append(bad.Oneofs, &ir.Oneof{Name: "extra"})
 			bad.Fields[0].Oneof = "extra"
-			bad.Fields = append(bad.Fields, &ir.Field{Name: "other", Number: 3, Kind: "int32", Oneof: "extra"})
+			// members of one oneof are declared consecutively
+			bad.Fields = []*ir.Field{bad.Fields[0], {Name: "other", Number: 3, Kind: "int32", Oneof: "extra"}, bad.Fields[1]}
 		}
 		b.Offender = "content"
 	case "oneof_flatten_scalar_variant":
